@@ -1,5 +1,826 @@
-//! code -> spec: seeded random histories on the real contract (under construction)
-pub fn main(_args: &[String]) -> i32 {
-    eprintln!("drive: not built yet");
-    2
+//! code -> spec: seeded random histories on the real contract.
+//!
+//! The driver instantiates the contract with a random coherent configuration and a random
+//! marker / attribute table, then issues random requests of every kind (biased towards
+//! validity by looking at the book it projects from storage), with role overlaps, odd
+//! spellings, corrupted fields, configuration changes, time-travel migrations, and after
+//! every step probes on a copy of the state (owner cancel and executor expire of every open
+//! order, queries for open / closed / unused / legacy / malformed ids).  Every call is
+//! recorded as one ndjson line and judged by TLC (spec/AtsTrace.tla).  The driver contains no
+//! expectation about outcomes; it only keeps the cumulative ledger of real fund movements.
+
+use crate::arg;
+use crate::model::*;
+use crate::render::SCALE;
+use crate::world::World;
+use rand::rngs::StdRng;
+use rand::seq::SliceRandom;
+use rand::{Rng, SeedableRng};
+use std::collections::BTreeMap;
+use std::io::Write;
+
+const ASK_IDS: [&str; 12] = ["a1", "a2", "a3", "a4", "a5", "a6", "a7", "a8", "s1", "s2", "s3", "s4"];
+const BID_IDS: [&str; 12] = ["b1", "b2", "b3", "b4", "b5", "b6", "b7", "b8", "s1", "s2", "s3", "s4"];
+const SELLERS: [&str; 4] = ["seller1", "seller2", "multi1", "multi2"];
+const BUYERS: [&str; 4] = ["buyer1", "buyer2", "multi1", "multi2"];
+const EVERYONE: [&str; 16] = [
+    "seller1", "seller2", "buyer1", "buyer2", "appr1", "appr2", "exec1", "exec2", "askfee1", "askfee2", "bidfee1",
+    "bidfee2", "stranger", "multi1", "multi2", "admin",
+];
+const GOOD_SP: [&str; 5] = ["plain", "t0", "lead0", "plus", "dot"];
+const MAX_QUOTE: i64 = 20_000;
+
+#[derive(Clone, Copy, PartialEq)]
+pub enum Profile {
+    Mixed,
+    Match,
+    Reverse,
+    Create,
+    Fee,
+    Conv,
+    Modify,
+    Migrate,
+}
+
+fn profile_of(s: &str) -> Profile {
+    match s {
+        "match" => Profile::Match,
+        "reverse" => Profile::Reverse,
+        "create" => Profile::Create,
+        "fee" => Profile::Fee,
+        "conv" => Profile::Conv,
+        "modify" => Profile::Modify,
+        "migrate" => Profile::Migrate,
+        _ => Profile::Mixed,
+    }
+}
+
+struct Driver {
+    rng: StdRng,
+    w: World,
+    env: EnvT,
+    profile: Profile,
+    seq: u64,
+    held: BTreeMap<String, i64>,
+    /// per open bid key: the events an old-format store would have logged for it
+    logs: BTreeMap<String, Vec<EventT>>,
+    out: std::io::BufWriter<std::fs::File>,
+    src: String,
+    nrec: u64,
+    nprobe: u64,
+    by_kind: BTreeMap<String, (u64, u64)>,
+    samples: Vec<serde_json::Value>,
+}
+
+fn dec(n: i64, sp: &str) -> DecT {
+    DecT { n, sp: sp.to_string() }
+}
+
+fn some<T>(v: T) -> Opt<T> {
+    Opt { some: true, v }
+}
+
+fn none_seq() -> Opt<Vec<String>> {
+    Opt { some: false, v: vec![] }
+}
+
+fn none_str() -> Opt<String> {
+    Opt { some: false, v: String::new() }
+}
+
+fn none_dec() -> Opt<DecT> {
+    Opt { some: false, v: dec(0, "plain") }
+}
+
+fn half_up(n: i64, d: i64) -> i64 {
+    (2 * n + d) / (2 * d)
+}
+
+impl Driver {
+    fn pick<'a>(&mut self, xs: &[&'a str]) -> &'a str {
+        xs[self.rng.gen_range(0..xs.len())]
+    }
+
+    fn chance(&mut self, p: f64) -> bool {
+        self.rng.gen_bool(p)
+    }
+
+    fn spelling(&mut self, n: i64) -> DecT {
+        if self.chance(0.7) {
+            dec(n, "plain")
+        } else {
+            let sp = GOOD_SP[self.rng.gen_range(0..GOOD_SP.len())];
+            dec(n, sp)
+        }
+    }
+
+    fn restricted(&self, d: &str) -> bool {
+        self.env.marker.get(d).map(|k| k == "restricted").unwrap_or(false)
+    }
+
+    fn funds_for(&mut self, d: &str, amt: i64, corrupt: f64) -> Vec<CoinT> {
+        let exact = if self.restricted(d) { vec![] } else { vec![CoinT { denom: d.to_string(), amt }] };
+        if !self.chance(corrupt) {
+            return exact;
+        }
+        match self.rng.gen_range(0..5) {
+            0 => vec![CoinT { denom: d.to_string(), amt: amt + 1 }],
+            1 => vec![CoinT { denom: d.to_string(), amt: (amt - 1).max(1) }],
+            2 => vec![],
+            3 => vec![CoinT { denom: d.to_string(), amt }, CoinT { denom: "q2".into(), amt: 1 }],
+            _ => vec![CoinT { denom: "q2".into(), amt }],
+        }
+    }
+
+    // ------------------------------------------------------------------ recording
+    fn record(&mut self, req: &ReqT, probe: bool, reset: bool, pre: StateT) -> (RespT, StateT) {
+        self.w.set_env(&self.env);
+        let snap = if probe { Some(self.w.snapshot()) } else { None };
+        let resp = self.w.call(req);
+        let post = self.w.project();
+        if let Some(s) = snap {
+            self.w.restore(&s);
+        }
+        if !probe && resp.ok {
+            // cumulative ledger of what the contract holds, from the real fund movements
+            let (sender, funds) = sender_funds(req);
+            for c in &funds {
+                *self.held.entry(c.denom.clone()).or_insert(0) += c.amt;
+                let _ = &sender;
+            }
+            for m in &resp.msgs {
+                if m.to == "contract" {
+                    *self.held.entry(m.denom.clone()).or_insert(0) += m.amt;
+                }
+                if m.from == "contract" {
+                    *self.held.entry(m.denom.clone()).or_insert(0) -= m.amt;
+                }
+            }
+            self.track_events(req, &resp, &pre, &post);
+        }
+        let e = self.by_kind.entry(req.kind().to_string()).or_insert((0, 0));
+        if resp.ok {
+            e.0 += 1;
+        } else {
+            e.1 += 1;
+        }
+        let obs = ObsT {
+            src: self.src.clone(),
+            seq: self.seq,
+            reset,
+            chained: true,
+            native: true,
+            probe,
+            pre,
+            env: self.env.clone(),
+            req: req.clone(),
+            resp: resp.clone(),
+            post: post.clone(),
+            dontcare: vec![],
+            ledger: if probe { None } else { Some(self.held.clone()) },
+        };
+        self.seq += 1;
+        if probe {
+            self.nprobe += 1;
+        } else {
+            self.nrec += 1;
+        }
+        if self.samples.len() < 3 && !probe && resp.ok && self.seq % 37 == 5 {
+            self.samples.push(serde_json::json!({"req": req, "ok": resp.ok, "msgs": resp.msgs, "attrs": resp.attrs}));
+        }
+        writeln!(self.out, "{}", serde_json::to_string(&obs).unwrap()).unwrap();
+        (resp, post)
+    }
+
+    /// what an old-format store would have logged for each bid (used by time-travel migrations)
+    fn track_events(&mut self, req: &ReqT, resp: &RespT, pre: &StateT, post: &StateT) {
+        let key = match req {
+            ReqT::ExecuteMatch { bid_id, .. } => bid_id.clone(),
+            ReqT::RejectBid { id, .. } | ReqT::CancelBid { id, .. } | ReqT::ExpireBid { id, .. } => id.clone(),
+            ReqT::CreateBid { id, .. } => {
+                self.logs.insert(id.clone(), vec![]);
+                return;
+            }
+            _ => return,
+        };
+        let b0 = match pre.bids.get(&key) {
+            Some(b) => b.clone(),
+            None => return,
+        };
+        let b1 = match post.bids.get(&key) {
+            Some(b) => b.clone(),
+            None => {
+                self.logs.remove(&key);
+                return;
+            }
+        };
+        let (dab, daq, daf) = (b1.ab - b0.ab, b1.aq - b0.aq, b1.af - b0.af);
+        let fee = |a: i64| FeeT { some: a > 0, amt: a, denom: String::new() };
+        let log = self.logs.entry(key).or_default();
+        if let ReqT::ExecuteMatch { price, size, .. } = req {
+            let g = price.n * size / SCALE;
+            let actual = resp.attrs.get("bid_fee").and_then(|v| v.as_i64()).unwrap_or(0);
+            log.push(EventT { kind: "fill".into(), base: *size, quote: g, fee: fee(actual) });
+            if daq - g != 0 || daf - actual != 0 {
+                log.push(EventT { kind: "refund".into(), base: 0, quote: daq - g, fee: fee(daf - actual) });
+            }
+        } else {
+            log.push(EventT { kind: "reject".into(), base: dab, quote: daq, fee: fee(daf) });
+        }
+    }
+
+    // ------------------------------------------------------------------ probes
+    fn probes(&mut self, st: &StateT, closed: &[String]) {
+        // exits: owner cancel and executor expire of every open order, on a copy of the state
+        let execs = st.cfg.executors.clone();
+        for (k, a) in st.asks.clone() {
+            let r = ReqT::CancelAsk { sender: a.owner.clone(), funds: vec![], id: k.clone(), size: -1 };
+            self.record(&r, true, false, st.clone());
+            if let Some(e) = execs.first() {
+                let r = ReqT::ExpireAsk { sender: e.clone(), funds: vec![], id: k.clone(), size: -1 };
+                self.record(&r, true, false, st.clone());
+            }
+        }
+        for (k, b) in st.bids.clone() {
+            let r = ReqT::CancelBid { sender: b.owner.clone(), funds: vec![], id: k.clone(), size: -1 };
+            self.record(&r, true, false, st.clone());
+            if let Some(e) = execs.last() {
+                let r = ReqT::ExpireBid { sender: e.clone(), funds: vec![], id: k.clone(), size: -1 };
+                self.record(&r, true, false, st.clone());
+            }
+        }
+        // queries: an open id, a closed one, a never used one, legacy and malformed forms
+        let mut ids: Vec<String> = vec![];
+        if let Some(k) = st.asks.keys().next() {
+            ids.push(k.clone());
+            ids.push(format!("{}L", k));
+        }
+        if let Some(k) = st.bids.keys().next() {
+            ids.push(k.clone());
+            ids.push(format!("{}U", k));
+        }
+        if let Some(c) = closed.last() {
+            ids.push(c.clone());
+        }
+        ids.push("a8".into());
+        ids.push("a1T".into());
+        let which = self.rng.gen_range(0..ids.len());
+        let id = ids[which].clone();
+        for kind in 0..2 {
+            let r = if kind == 0 {
+                ReqT::QueryAsk { sender: "anyone".into(), funds: vec![], id: id.clone() }
+            } else {
+                ReqT::QueryBid { sender: "anyone".into(), funds: vec![], id: id.clone() }
+            };
+            self.record(&r, true, false, st.clone());
+        }
+        if self.chance(0.2) {
+            let r = ReqT::QueryCfg { sender: "anyone".into(), funds: vec![], id: "".into() };
+            self.record(&r, true, false, st.clone());
+            let r = ReqT::QueryVer { sender: "anyone".into(), funds: vec![], id: "".into() };
+            self.record(&r, true, false, st.clone());
+        }
+    }
+
+    // ------------------------------------------------------------------ request generators
+    fn gen_instantiate(&mut self) -> ReqT {
+        let prec = self.rng.gen_range(0..=3i64);
+        let mult = [1i64, 1, 2, 5][self.rng.gen_range(0..4)];
+        let inc = 10i64.pow(prec as u32) * mult;
+        let fee_profile = self.profile == Profile::Fee;
+        let rates = [500i64, 1000, 2500, 3000, 3333, 5000, 125, 10000, 1];
+        let mut pair = |d: &mut Driver, accts: &[&str], p: f64| -> (Opt<DecT>, Opt<String>) {
+            if d.chance(p) {
+                let r = rates[d.rng.gen_range(0..rates.len())];
+                let sp = d.spelling(r);
+                (some(sp), some(d.pick(accts).to_string()))
+            } else if d.chance(0.2) {
+                (some(dec(0, "bad_empty")), some(String::new()))
+            } else {
+                (none_dec(), none_str())
+            }
+        };
+        let (ar, aa) = pair(self, &["askfee1", "askfee2", "multi1", "seller1"], if fee_profile { 0.8 } else { 0.5 });
+        let (br, ba) = pair(self, &["bidfee1", "bidfee2", "multi2", "buyer1"], if fee_profile { 0.95 } else { 0.6 });
+        let mut approvers = vec!["appr1".to_string()];
+        if self.chance(0.5) {
+            approvers.push(self.pick(&["appr2", "multi1", "seller1"]).to_string());
+        }
+        let mut executors = vec!["exec1".to_string()];
+        if self.chance(0.5) {
+            executors.push(self.pick(&["exec2", "multi2", "multi1"]).to_string());
+        }
+        let attrs = |d: &mut Driver| if d.chance(0.3) { vec!["kyc".to_string()] } else { vec![] };
+        let askattrs = attrs(self);
+        let bidattrs = attrs(self);
+        ReqT::Instantiate {
+            sender: "admin".into(),
+            funds: vec![],
+            msg: InstMsgT {
+                name: "ats".into(),
+                base: "base".into(),
+                convs: vec!["cv1".into(), "cv2".into()],
+                quotes: vec!["q1".into(), "q2".into()],
+                approvers,
+                executors,
+                askfee_rate: ar,
+                askfee_acct: aa,
+                bidfee_rate: br,
+                bidfee_acct: ba,
+                askattrs,
+                bidattrs,
+                prec,
+                inc,
+            },
+        }
+    }
+
+    fn gen_env(&mut self) -> EnvT {
+        let mut marker = BTreeMap::new();
+        for d in ["base", "cv1", "cv2", "q1", "q2"] {
+            let k = match self.rng.gen_range(0..10) {
+                0..=2 => "restricted",
+                3..=7 => "coin",
+                _ => "none",
+            };
+            marker.insert(d.to_string(), k.to_string());
+        }
+        let mut attrs = BTreeMap::new();
+        for a in EVERYONE {
+            let mut v = vec![];
+            if self.chance(0.85) {
+                v.push("kyc".to_string());
+            }
+            if self.chance(0.3) {
+                v.push("acc".to_string());
+            }
+            attrs.insert(a.to_string(), v);
+        }
+        EnvT { marker, attrs }
+    }
+
+    fn price(&mut self, cfg: &CfgT) -> DecT {
+        // a multiple of 10^-prec between about 0.5 and 20, occasionally one decimal too many
+        let unit = 10i64.pow((4 - cfg.prec.min(4)) as u32);
+        let k = self.rng.gen_range(1..=(200_000 / unit).max(1)).min(20 * SCALE / unit);
+        let mut n = (k * unit).max(unit);
+        if self.chance(0.03) && unit >= 10 {
+            n += unit / 10;
+        }
+        if self.chance(0.02) {
+            return dec(if self.chance(0.5) { 0 } else { -n }, "plain");
+        }
+        if self.chance(0.02) {
+            return dec(0, ["bad_word", "bad_empty"][self.rng.gen_range(0..2)]);
+        }
+        self.spelling(n)
+    }
+
+    fn size(&mut self, cfg: &CfgT, price_n: i64) -> i64 {
+        let inc = cfg.inc.max(1);
+        let maxk = (MAX_QUOTE * SCALE / price_n.max(1) / inc).clamp(1, 12);
+        let mut s = inc * self.rng.gen_range(1..=maxk);
+        if self.chance(0.04) {
+            s += 1;
+        }
+        s
+    }
+
+    fn gen_create_ask(&mut self, st: &StateT) -> ReqT {
+        let cfg = &st.cfg;
+        let conv = self.profile == Profile::Conv;
+        let base = if self.chance(if conv { 0.8 } else { 0.3 }) {
+            self.pick(&["cv1", "cv2"]).to_string()
+        } else if self.chance(0.03) {
+            "junk".to_string()
+        } else {
+            "base".to_string()
+        };
+        let free: Vec<&str> = ASK_IDS.iter().copied().filter(|i| !st.asks.contains_key(*i)).collect();
+        let id = if free.is_empty() || self.chance(0.05) {
+            self.pick(&["a1", "a1L", "a2U", "a3T", ""]).to_string()
+        } else {
+            free[self.rng.gen_range(0..free.len())].to_string()
+        };
+        let price = self.price(cfg);
+        let size = self.size(cfg, price.n.max(1));
+        let quote = if self.chance(0.03) { "q9".to_string() } else { self.pick(&["q1", "q1", "q2"]).to_string() };
+        let funds = self.funds_for(&base, size, 0.07);
+        ReqT::CreateAsk { sender: self.pick(&SELLERS).to_string(), funds, id, base, quote, price, size }
+    }
+
+    fn gen_create_bid(&mut self, st: &StateT) -> ReqT {
+        let cfg = st.cfg.clone();
+        let free: Vec<&str> = BID_IDS.iter().copied().filter(|i| !st.bids.contains_key(*i)).collect();
+        let id = if free.is_empty() || self.chance(0.05) {
+            self.pick(&["b1", "b1L", "b2U", "b3T", ""]).to_string()
+        } else {
+            free[self.rng.gen_range(0..free.len())].to_string()
+        };
+        // price bids against an open ask now and then, so that books cross
+        let mut price = self.price(&cfg);
+        if self.chance(0.6) {
+            let asks: Vec<&AskT> = st.asks.values().collect();
+            if let Some(a) = asks.choose(&mut self.rng) {
+                let bump = 10i64.pow((4 - cfg.prec.min(4)) as u32) * self.rng.gen_range(0..3);
+                price = self.spelling(a.price.n + bump);
+            }
+        }
+        let size = self.size(&cfg, price.n.max(1));
+        let mut total = price.n.max(0) * size / SCALE;
+        if self.chance(0.04) {
+            total += 1;
+        }
+        let due = if cfg.bidfee.some { half_up(cfg.bidfee.rate.n.max(0) * total, SCALE) } else { 0 };
+        let quote = self.pick(&["q1", "q1", "q2"]).to_string();
+        let mut fee = if due > 0 { FeeT { some: true, amt: due, denom: quote.clone() } } else { FeeT::none() };
+        if self.chance(0.05) {
+            fee = match self.rng.gen_range(0..4) {
+                0 => FeeT::none(),
+                1 => FeeT { some: true, amt: due + 1, denom: quote.clone() },
+                2 => FeeT { some: true, amt: due, denom: "q2".into() },
+                _ => FeeT { some: true, amt: 0, denom: quote.clone() },
+            };
+        }
+        let need = total + if fee.some { fee.amt } else { 0 };
+        let funds = self.funds_for(&quote, need, 0.07);
+        let base = if self.chance(0.03) { "cv1".to_string() } else { "base".to_string() };
+        ReqT::CreateBid {
+            sender: self.pick(&BUYERS).to_string(),
+            funds,
+            id,
+            base,
+            fee,
+            price,
+            quote,
+            qsize: total.max(0),
+            size,
+        }
+    }
+
+    fn any_sender(&mut self, right: &str, p_right: f64) -> String {
+        if self.chance(p_right) {
+            right.to_string()
+        } else {
+            self.pick(&EVERYONE).to_string()
+        }
+    }
+
+    fn gen_approve(&mut self, st: &StateT) -> Option<ReqT> {
+        let pend: Vec<&AskT> =
+            st.asks.values().filter(|a| a.class != "basic" && (a.class == "pending" || self.rng.gen_bool(0.1))).collect();
+        let a = (*pend.choose(&mut self.rng)?).clone();
+        let appr = st.cfg.approvers.choose(&mut self.rng).cloned().unwrap_or_else(|| "appr1".into());
+        let sender = self.any_sender(&appr, 0.9);
+        let size = if self.chance(0.05) { a.size + 1 } else { a.size };
+        let base = if self.chance(0.04) { a.base.clone() } else { st.cfg.base.clone() };
+        let funds = self.funds_for(&base, size, 0.06);
+        Some(ReqT::ApproveAsk { sender, funds, id: a.id.clone(), base, size })
+    }
+
+    fn partial(&mut self, inc: i64, rem: i64) -> i64 {
+        if self.chance(0.45) {
+            return -1;
+        }
+        let inc = inc.max(1);
+        let k = (rem / inc).max(1);
+        let mut s = inc * self.rng.gen_range(1..=k);
+        if self.chance(0.05) {
+            s += 1;
+        }
+        if self.chance(0.04) {
+            s = rem + inc;
+        }
+        s
+    }
+
+    fn gen_reverse(&mut self, st: &StateT) -> Option<ReqT> {
+        let exec = st.cfg.executors.choose(&mut self.rng).cloned().unwrap_or_else(|| "exec1".into());
+        let funds = if self.chance(0.02) { vec![CoinT { denom: "q1".into(), amt: 1 }] } else { vec![] };
+        if self.chance(0.5) && !st.asks.is_empty() {
+            let a = (*st.asks.values().collect::<Vec<_>>().choose(&mut self.rng)?).clone();
+            let key = st.asks.iter().find(|(_, v)| **v == a).map(|(k, _)| k.clone())?;
+            Some(match self.rng.gen_range(0..3) {
+                0 => ReqT::CancelAsk { sender: self.any_sender(&a.owner, 0.9), funds, id: key, size: -1 },
+                1 => ReqT::ExpireAsk { sender: self.any_sender(&exec, 0.9), funds, id: key, size: -1 },
+                _ => {
+                    let size = self.partial(st.cfg.inc, a.size);
+                    ReqT::RejectAsk { sender: self.any_sender(&exec, 0.92), funds, id: key, size }
+                }
+            })
+        } else if !st.bids.is_empty() {
+            let (key, b) = {
+                let v: Vec<(&String, &BidT)> = st.bids.iter().collect();
+                let (k, b) = v.choose(&mut self.rng)?;
+                ((*k).clone(), (*b).clone())
+            };
+            Some(match self.rng.gen_range(0..3) {
+                0 => ReqT::CancelBid { sender: self.any_sender(&b.owner, 0.9), funds, id: key, size: -1 },
+                1 => ReqT::ExpireBid { sender: self.any_sender(&exec, 0.9), funds, id: key, size: -1 },
+                _ => {
+                    let size = self.partial(st.cfg.inc, b.size - b.ab);
+                    ReqT::RejectBid { sender: self.any_sender(&exec, 0.92), funds, id: key, size }
+                }
+            })
+        } else {
+            None
+        }
+    }
+
+    fn gen_match(&mut self, st: &StateT) -> Option<ReqT> {
+        let exec = st.cfg.executors.choose(&mut self.rng).cloned().unwrap_or_else(|| "exec1".into());
+        let mut pairs: Vec<(String, String)> = vec![];
+        for (ak, a) in &st.asks {
+            for (bk, b) in &st.bids {
+                let good = a.quote == b.quote && a.price.n <= b.price.n && a.class != "pending";
+                if good || self.rng.gen_bool(0.03) {
+                    pairs.push((ak.clone(), bk.clone()));
+                }
+            }
+        }
+        let (ak, bk) = pairs.choose(&mut self.rng)?.clone();
+        let a = st.asks[&ak].clone();
+        let b = st.bids[&bk].clone();
+        let n = match self.rng.gen_range(0..20) {
+            0..=8 => a.price.n,
+            9..=17 => b.price.n,
+            18 => (a.price.n + b.price.n) / 2,
+            _ => b.price.n + 10_000,
+        };
+        let price = self.spelling(n);
+        let cap = a.size.min(b.size - b.ab).max(1);
+        let size = match self.rng.gen_range(0..10) {
+            0..=3 => cap,
+            4..=5 => {
+                let inc = st.cfg.inc.max(1);
+                inc * self.rng.gen_range(1..=(cap / inc).max(1))
+            }
+            6..=7 => self.rng.gen_range(1..=cap),
+            8 => cap + 1,
+            _ => a.size.max(b.size - b.ab),
+        };
+        let funds = if self.chance(0.02) { vec![CoinT { denom: "q1".into(), amt: 1 }] } else { vec![] };
+        Some(ReqT::ExecuteMatch { sender: self.any_sender(&exec, 0.93), funds, ask_id: ak, bid_id: bk, price, size })
+    }
+
+    fn gen_modify(&mut self, st: &StateT) -> ReqT {
+        let exec = st.cfg.executors.choose(&mut self.rng).cloned().unwrap_or_else(|| "exec1".into());
+        let mut approvers = none_seq();
+        let mut executors = none_seq();
+        let (mut ar, mut aa, mut br, mut ba) = (none_dec(), none_str(), none_dec(), none_str());
+        let mut askattrs = none_seq();
+        let mut bidattrs = none_seq();
+        match self.rng.gen_range(0..8) {
+            0 => {
+                let mut v = st.cfg.approvers.clone();
+                if self.chance(0.7) {
+                    v.push(self.pick(&["appr2", "multi1", "seller2"]).to_string());
+                } else if !v.is_empty() {
+                    v.remove(0);
+                }
+                approvers = some(v);
+            }
+            1 => {
+                let mut v = st.cfg.executors.clone();
+                if self.chance(0.6) {
+                    v.push(self.pick(&["exec2", "multi2", "buyer2"]).to_string());
+                } else if v.len() > 1 {
+                    v.pop();
+                } else {
+                    v = vec![];
+                }
+                executors = some(v);
+            }
+            2 | 3 => {
+                let cur = if st.cfg.askfee.some { st.cfg.askfee.rate.n } else { 2500 };
+                let n = if self.chance(0.7) { cur } else { 1000 };
+                ar = some(self.spelling(n));
+                aa = some(self.pick(&["askfee1", "askfee2", "multi1"]).to_string());
+                if self.chance(0.15) {
+                    ar = some(dec(0, "bad_empty"));
+                    aa = some(String::new());
+                }
+                if self.chance(0.05) {
+                    aa = none_str();
+                }
+            }
+            4 | 5 => {
+                let cur = if st.cfg.bidfee.some { st.cfg.bidfee.rate.n } else { 2500 };
+                let n = if self.chance(0.7) { cur } else { 500 };
+                br = some(self.spelling(n));
+                ba = some(self.pick(&["bidfee1", "bidfee2", "multi2"]).to_string());
+                if self.chance(0.15) {
+                    br = some(dec(0, "bad_empty"));
+                    ba = some(String::new());
+                }
+            }
+            6 => askattrs = some(if self.chance(0.5) { vec![] } else { vec!["kyc".into()] }),
+            _ => bidattrs = some(if self.chance(0.5) { vec![] } else { vec!["kyc".into()] }),
+        }
+        ReqT::ModifyContract {
+            sender: self.any_sender(&exec, 0.9),
+            funds: if self.chance(0.03) { vec![CoinT { denom: "q1".into(), amt: 2 }] } else { vec![] },
+            approvers,
+            executors,
+            askfee_rate: ar,
+            askfee_acct: aa,
+            bidfee_rate: br,
+            bidfee_acct: ba,
+            askattrs,
+            bidattrs,
+        }
+    }
+
+    fn gen_migrate_msg(&mut self) -> MigMsgT {
+        let mut m = MigMsgT {
+            approvers: none_seq(),
+            askfee_rate: none_dec(),
+            askfee_acct: none_str(),
+            bidfee_rate: none_dec(),
+            bidfee_acct: none_str(),
+            askattrs: none_seq(),
+            bidattrs: none_seq(),
+        };
+        match self.rng.gen_range(0..6) {
+            0 => m.approvers = some(vec!["appr1".into(), "appr2".into()]),
+            1 => {
+                m.askfee_rate = some(dec(2500, "plain"));
+                m.askfee_acct = some("askfee2".into());
+            }
+            2 => {
+                m.bidfee_rate = some(dec(0, "bad_empty"));
+                m.bidfee_acct = some(String::new());
+            }
+            3 => m.askattrs = some(vec![]),
+            4 => m.bidfee_rate = some(dec(2500, "plain")),
+            _ => {}
+        }
+        m
+    }
+
+    /// Rewrite the store as an older contract version would have left it: old version record and
+    /// every open bid in the event-log format, re-encoded from the events recorded for it.
+    fn time_travel(&mut self, st: &StateT) -> StateT {
+        let ver = ["0.16.2", "0.17.0", "0.18.2", "0.19.0", "0.19.1", "0.16.1", "1.0.0-rc1", "garbage"];
+        let v = ver[self.rng.gen_range(0..ver.len())];
+        let mut s = st.clone();
+        s.ver = v.to_string();
+        let window = ["0.16.2", "0.17.0", "0.18.2", "0.19.0"].contains(&v);
+        if window {
+            for (k, b) in s.bids.iter_mut() {
+                if let Some(log) = self.logs.get(k) {
+                    if self.rng.gen_bool(0.8) {
+                        b.fmt = "v2".into();
+                        b.ab = 0;
+                        b.aq = 0;
+                        b.af = 0;
+                        b.events = log.clone();
+                    }
+                }
+            }
+        }
+        self.w.inject(&s);
+        self.w.project()
+    }
+
+    // ------------------------------------------------------------------ one history
+    fn history(&mut self, steps: usize) {
+        self.w.clear_storage();
+        self.held.clear();
+        self.logs.clear();
+        self.env = self.gen_env();
+        let inst = self.gen_instantiate();
+        let (resp, mut st) = self.record(&inst, false, true, StateT::empty());
+        if !resp.ok {
+            return;
+        }
+        let mut closed: Vec<String> = vec![];
+        let mut need_reset = false;
+        for _ in 0..steps {
+            let p = self.profile;
+            let roll = self.rng.gen_range(0..100);
+            let (w_ask, w_bid, w_appr, w_rev, w_match, w_mod) = match p {
+                Profile::Mixed => (16, 16, 8, 20, 28, 6),
+                Profile::Match => (14, 16, 8, 8, 48, 2),
+                Profile::Reverse => (16, 16, 8, 40, 14, 2),
+                Profile::Create => (40, 40, 6, 6, 4, 2),
+                Profile::Fee => (12, 20, 4, 24, 34, 2),
+                Profile::Conv => (22, 12, 18, 22, 22, 2),
+                Profile::Modify => (12, 12, 4, 12, 12, 44),
+                Profile::Migrate => (16, 20, 6, 16, 28, 4),
+            };
+            let req = if roll < w_ask {
+                Some(self.gen_create_ask(&st))
+            } else if roll < w_ask + w_bid {
+                Some(self.gen_create_bid(&st))
+            } else if roll < w_ask + w_bid + w_appr {
+                self.gen_approve(&st)
+            } else if roll < w_ask + w_bid + w_appr + w_rev {
+                self.gen_reverse(&st)
+            } else if roll < w_ask + w_bid + w_appr + w_rev + w_match {
+                self.gen_match(&st)
+            } else if roll < w_ask + w_bid + w_appr + w_rev + w_match + w_mod {
+                Some(self.gen_modify(&st))
+            } else {
+                // change the environment now and then: marker types and attributes are chain state
+                if self.chance(0.3) {
+                    let a = self.pick(&EVERYONE).to_string();
+                    let e = self.env.attrs.entry(a).or_default();
+                    if e.contains(&"kyc".to_string()) {
+                        e.retain(|x| x != "kyc");
+                    } else {
+                        e.push("kyc".into());
+                    }
+                }
+                None
+            };
+            let req = match req {
+                Some(r) => r,
+                None => continue,
+            };
+            let (_resp, post) = self.record(&req, false, need_reset, st.clone());
+            need_reset = false;
+            for k in st.asks.keys().chain(st.bids.keys()) {
+                if !post.asks.contains_key(k) && !post.bids.contains_key(k) {
+                    closed.push(k.clone());
+                }
+            }
+            st = post;
+            self.probes(&st.clone(), &closed);
+
+            if p == Profile::Migrate && self.chance(0.04) {
+                // time travel, then migrate (twice), then carry on
+                st = self.time_travel(&st);
+                let m = self.gen_migrate_msg();
+                let r = ReqT::Migrate { sender: "admin".into(), funds: vec![], msg: m.clone() };
+                let (_r1, p1) = self.record(&r, false, true, st.clone());
+                st = p1;
+                let (_r2, p2) = self.record(&r, false, false, st.clone());
+                st = p2;
+                if st.ver != "1.0.0" {
+                    // a refused migration leaves an old store: put the current version back and go on
+                    let mut s2 = st.clone();
+                    s2.ver = "1.0.0".into();
+                    for b in s2.bids.values_mut() {
+                        if b.fmt == "v2" {
+                            // continue from the amounts the log describes
+                            b.fmt = "v3".into();
+                            b.ab = b.events.iter().map(|e| if e.kind == "refund" { 0 } else { e.base }).sum();
+                            b.aq = b.events.iter().map(|e| e.quote).sum();
+                            b.af = b.events.iter().map(|e| e.fee.amt).sum();
+                            b.events = vec![];
+                        }
+                    }
+                    self.w.inject(&s2);
+                    st = self.w.project();
+                    need_reset = true;
+                }
+            }
+        }
+    }
+}
+
+fn sender_funds(req: &ReqT) -> (String, Vec<CoinT>) {
+    let v = serde_json::to_value(req).unwrap();
+    let s = v["sender"].as_str().unwrap_or("").to_string();
+    let f: Vec<CoinT> = serde_json::from_value(v["funds"].clone()).unwrap_or_default();
+    (s, f)
+}
+
+pub fn main(args: &[String]) -> i32 {
+    let seed: u64 = arg(args, "--seed").and_then(|s| s.parse().ok()).unwrap_or(1);
+    let steps: usize = arg(args, "--steps").and_then(|s| s.parse().ok()).unwrap_or(300);
+    let histories: usize = arg(args, "--histories").and_then(|s| s.parse().ok()).unwrap_or(1);
+    let profile = arg(args, "--profile").unwrap_or("mixed").to_string();
+    let out_path = arg(args, "--out").unwrap_or("trace.ndjson").to_string();
+    let stats_path = arg(args, "--stats").unwrap_or("drive_stats.json").to_string();
+    let out = std::io::BufWriter::new(std::fs::File::create(&out_path).expect("create trace"));
+    let mut d = Driver {
+        rng: StdRng::seed_from_u64(seed),
+        w: World::new(),
+        env: EnvT { marker: BTreeMap::new(), attrs: BTreeMap::new() },
+        profile: profile_of(&profile),
+        seq: 0,
+        held: BTreeMap::new(),
+        logs: BTreeMap::new(),
+        out,
+        src: format!("drive:{}:{}", profile, seed),
+        nrec: 0,
+        nprobe: 0,
+        by_kind: BTreeMap::new(),
+        samples: vec![],
+    };
+    for h in 0..histories {
+        d.rng = StdRng::seed_from_u64(seed.wrapping_mul(1_000_003).wrapping_add(h as u64));
+        d.history(steps);
+    }
+    d.out.flush().unwrap();
+    let st = serde_json::json!({
+        "profile": profile, "seed": seed, "histories": histories, "steps": steps,
+        "calls": d.nrec, "probes": d.nprobe,
+        "by_kind": d.by_kind.iter().map(|(k, (a, r))| (k.clone(), serde_json::json!({"accepted": a, "refused": r}))).collect::<BTreeMap<_, _>>(),
+        "samples": d.samples,
+    });
+    std::fs::write(&stats_path, serde_json::to_string_pretty(&st).unwrap()).unwrap();
+    0
 }
